@@ -98,6 +98,32 @@ Example C05_listener_leaving_example :
      SPoll None 0])) = [0; 1].
 Proof. vm_compute. reflexivity. Qed.
 
+(* the consumer's side of a '?' attachment: when the publisher says CLOSE while half a set is held, the half is dropped and the
+   source starts over (expected id back to the initial one) - whatever comes next, from whichever incarnation under whatever
+   name, starts a new set instead of completing the old one; every other source is left exactly as it was.
+   (Oracle counterpart: corpus histories W4/W6/W7 and 'held-set:mixed-ids'.) *)
+From OF Require Import Proto.Receiver_Lemmas.
+Theorem C05_close_ends_half_received_set :
+  forall st f i m s0,
+    nth_error (srcs st) i = Some s0 -> sc_eph (cfg s0) <> 0 -> w_mid m = MSG_ID_CLOSE -> got s0 = 1 ->
+    let '(st', _, o, _) := on_msg Repaired st f i m in
+    o = [] /\
+    (exists s', nth_error (srcs st') i = Some s' /\ recvd s' = recvd_new (sc_mode (cfg s0)) /\ min_recv s' = MSG_ID_INITIAL /\ cfg s' = cfg s0) /\
+    (forall j, j <> i -> nth_error (srcs st') j = nth_error (srcs st) j).
+Proof.
+  intros st f i m s0 Hn He Hm Hg. unfold on_msg. rewrite Hn, Hm.
+  change (MSG_ID_CLOSE <=? MSG_ID_SPECIAL) with true. change (MSG_ID_CLOSE =? MSG_ID_OOB) with false.
+  change (MSG_ID_CLOSE =? MSG_ID_CLOSE) with true. cbn iota.
+  replace (sc_eph (cfg s0) =? 0) with false by (symmetry; apply Z.eqb_neq; exact He). cbn [negb andb].
+  replace (got (with_conn true s0)) with (got s0) by reflexivity. rewrite Hg. cbn [Z.eqb Pos.eqb].
+  split; [reflexivity|]. split.
+  - eexists. split; [cbn [srcs with_srcs]; rewrite nth_error_set_src, Nat.eqb_refl, Hn; reflexivity|].
+    cbn. repeat split; reflexivity.
+  - intros j Hj. cbn [srcs with_srcs]. rewrite nth_error_set_src.
+    destruct (Nat.eqb_spec j i) as [->|_]; [contradiction|reflexivity].
+Qed.
+Print Assumptions C05_close_ends_half_received_set.
+
 (* Non-vacuity: one synchronized and one ephemeral client; only the synchronized one has asked for the
    next frame, the ephemeral one stays silent: the publish goes out. *)
 Theorem C05_nonvacuous :
